@@ -39,6 +39,63 @@ example :
     (String.ofList (concretize .dollar (render .dollar v).segs), (render .dollar v).vars.length, (render .dollar v).oof)
       = ("name IN ($1,$2) AND age > $3", 3, false) := by decide
 
+/-! ### alignment of placeholders and bound values
+
+`Aligned st`: the placeholder numbers written so far, read left to right, are exactly `1..len(Vars)`
+(`ph n` is what BindVarTo wrote when `len(stmt.Vars) = n`, i.e. `$n`; for `?` the k-th `?` belongs to the k-th var). -/
+
+def Aligned {β : Type} (st : St β) : Prop := phs st.segs = List.range' 1 st.vars.length
+
+instance {β : Type} (st : St β) : Decidable (Aligned st) := by unfold Aligned; infer_instance
+
+theorem phs_append (a b : List Seg) : phs (a ++ b) = phs a ++ phs b := by
+  induction a with
+  | nil => rfl
+  | cons x xs ih => cases x <;> simp [phs, ih]
+
+/-- the only primitive that appends to `stmt.Vars` in the non-NamedArg arms (`append` + `BindVarTo`) preserves alignment -/
+theorem C01_bind_aligned {β : Type} (st : St β) (v : Val β) (h : Aligned st) : Aligned (st.bind v) := by
+  unfold Aligned at *
+  simp [St.bind, St.bindVarTo, St.appendVar, phs_append, phs, h, List.range'_concat]
+  omega
+
+/-- literal writes and quoted identifiers preserve alignment -/
+theorem C01_write_aligned {β : Type} (st : St β) (s : List Char) (h : Aligned st) :
+    Aligned (st.writeString s) ∧ Aligned (st.quote s) := by
+  unfold Aligned at *
+  simp [St.writeString, St.quote, phs_append, phs, h]
+
+/-- FINDING F21 (kernel-checked witness, replayed on the real code by the harness):
+    `Where("name = @n AND age = ?", sql.Named("n","x"), 5)` — one named and one positional parameter in the template,
+    one named and one positional argument.  BuildCondition routes it to clause.Expr (the text contains `?`); the `?`
+    consumes `Vars[0]`, which is the sql.NamedArg: AddVar's NamedArg arm appends its value and writes NO placeholder;
+    the positional 5 is then surplus and is appended without placeholder as well: two bound values, no placeholder. -/
+theorem C01_named_slot_counterexample :
+    let args : List (Val String) := [.named "n".toList (.scalar "x"), .scalar "5"]
+    let st := render .qmark (Val.whereC ((buildCondStr false "name = @n AND age = ?".toList args).getD []))
+    String.ofList (concretize .qmark st.segs) = "name = @n AND age = " ∧ st.vars.map Val.payload? = [some "x", some "5"] ∧ phs st.segs = [] ∧ ¬ Aligned st := by
+  decide
+
+/-- with the positional argument first the same template is rendered with one placeholder for it and the
+    sql.NamedArg is handed to the driver as a (driver-level) named argument for the `@n` left in the text -/
+example :
+    let args : List (Val String) := [.scalar "5", .named "n".toList (.scalar "x")]
+    let st := render .qmark (Val.whereC ((buildCondStr false "age = ? AND name = @n".toList args).getD []))
+    String.ofList (concretize .qmark st.segs) = "age = ? AND name = @n" ∧ st.vars.map Val.payload? = [some "5", none] ∧ phs st.segs = [1] := by
+  decide
+
+/-- `$n` with more than nine values: numbers are printed `$1 … $12` in order and the rendered sub-query
+    (`db.Raw(..)` as argument, textual re-templating branch of AddVar) is re-numbered after the outer value -/
+example :
+    let inner : Val String := .expr "SELECT id FROM t WHERE age IN ?".toList [.list true ((List.range 11).map fun i => .scalar (toString i))] false
+    let r := render .dollar inner
+    let outer : Val String := .expr "email <> ? AND id IN (?)".toList [.scalar "e", .rsub (concretize .dollar r.segs) r.vars] false
+    let st := render .dollar outer
+    String.ofList (concretize .dollar st.segs)
+        = "email <> $1 AND id IN (SELECT id FROM t WHERE age IN ($2,$3,$4,$5,$6,$7,$8,$9,$10,$11,$12))"
+      ∧ Aligned st ∧ st.vars.length = 12 := by
+  decide
+
 /-! ### regenerated arm table of `Statement.AddVar` (extract/main.go → Gen/Misc.lean) -/
 
 /-- every arm of the type switch that appends to `stmt.Vars` calls `BindVarTo` once per append — except the
